@@ -1883,6 +1883,67 @@ func (g *gen) chain(tier string, kind string) core.Case {
 	return core.Case{Kind: kind, Ops: g.ops}
 }
 
+
+// extreme: every variable-length field of header and commit at the maximum the types allow
+// (50-byte chain id, heights >= 2^56, app version >= 2^63, times before 1970 with 5-byte nanos,
+// part-set total and round >= 2^28), one validator, a single transaction that fills the data budget
+// exactly; the application hash length decides the header size (189 bytes -> MaxHeaderBytes = 626).
+func (g *gen) extreme(appLen int) core.Case {
+	k := g.newKey()
+	chain := strings.Repeat("z", 50)
+	ih := int64(1) << 62
+	gt := time.Unix(-315619200, 999999900).UTC() // 1960
+	const dataBudget = 16384                      // one tx of 16381 bytes: Data = 1+2+16381 = 16384, a 3-byte length prefix in the block
+	p := *types.DefaultConsensusParams()
+	p.Block.MaxBytes = dataBudget + types.MaxOverheadForBlock + types.MaxHeaderBytes + types.MaxCommitBytes(1)
+	p.Evidence.MaxBytes = 0
+	apph := g.rbytes(appLen)
+	m := map[string]string{"chain": hx([]byte(chain)), "ih": fmt.Sprint(ih), "lbt": nanos(gt),
+		"vals": fmt.Sprintf("%s:1:0", hex.EncodeToString(k.PubKey().Bytes())), "params": showParams(p), "apph": hx(apph),
+		"va": fmt.Sprint(uint64(1) << 63)}
+	st, err := genesisFromToks(m)
+	if err != nil {
+		panic(err)
+	}
+	g.rep = newReplica()
+	g.rep.boot(st)
+	g.emit("state " + stateToks(st, true))
+	prop := st.Validators.Validators[0].Address
+	// first block
+	c0 := types.NewCommit(0, 0, types.BlockID{}, nil)
+	lc0 := opCommit(c0)
+	g.emit(fmt.Sprintf("make h=%d txs=- ev=- prop=%s lc=%s sigok=. evadm=1 expect=ok scn=honest wt=-", ih, hx(prop), showCommit(lc0)))
+	blk, _ := st.MakeBlock(ih, nil, c0, nil, prop)
+	bid := types.BlockID{Hash: blk.Hash(), PartSetHeader: types.PartSetHeader{Total: 1 << 28, Hash: g.rbytes(32)}}
+	sc := script{AppHash: g.rbytes(appLen)}
+	g.rep.app.sc = sc
+	nst, _, aerr := g.rep.exec.ApplyBlock(st, bid, blk)
+	if aerr != nil {
+		panic(aerr)
+	}
+	g.emit(fmt.Sprintf("apply bid=%s res=- valupd=- changed=0 nvals=%s pu=none apph=%s sigok=. expect=ok", showBID(bid), showVals(nst.NextValidators, true), hx(sc.AppHash)))
+	g.rep.state = nst
+	st = nst
+	// the proposer of the second block: a maximal commit and a pool that fills the budget exactly
+	sig := g.signSig(st.ChainID, st.LastValidators, 0, ih, 1<<28, bid, gt.Add(50), types.BlockIDFlagCommit)
+	commit := types.NewCommit(ih, 1<<28, bid, []types.CommitSig{sig})
+	lc := opCommit(commit)
+	hb, _ := st.MakeBlock(ih+1, nil, commit, nil, prop)
+	hdr := hb.Header.ToProto().Size()
+	scn := "extreme-header-within-budget"
+	if int64(hdr)+7 > types.MaxHeaderBytes {
+		scn = "extreme-header-at-budget" // header <= MaxHeaderBytes, but less than 7 bytes below it
+	}
+	budget := ""
+	if int64(hdr) > types.MaxHeaderBytes {
+		budget = " budget=exempt"
+	}
+	pool := [][]byte{g.rbytes(dataBudget - 3)}
+	g.emit(fmt.Sprintf("create h=%d pool=%s ev=- prop=%s lc=%s sigok=%s evadm=1 expect=ok scn=%s hdr=%d%s", ih+1, hxList(pool), hx(prop),
+		showCommit(lc), sigokHint(st, blkT{H: ih + 1, LC: lc}), scn, hdr, budget))
+	return core.Case{Kind: "extreme", Ops: g.ops}
+}
+
 func genAll(r *rand.Rand, tier string, emit func(core.Case)) {
 	n := 72
 	if tier == "thorough" {
@@ -1896,6 +1957,10 @@ func genAll(r *rand.Rand, tier string, emit func(core.Case)) {
 	for i := 0; i < 2; i++ {
 		g := &gen{r: r, id: 1000000 + i, keys: map[string]ed25519.PrivKey{}}
 		emit(g.chain(tier, "wide"))
+	}
+	for i, al := range []int{32, 182, 183, 189, 190} {
+		g := &gen{r: r, id: 2000000 + i, keys: map[string]ed25519.PrivKey{}}
+		emit(g.extreme(al))
 	}
 	// malformed lines
 	emit(core.Case{Kind: "malformed", Ops: []string{"validate", "block vb=11", "state chain=zz", "apply bid=-/0/-", "set f=lbh v=1", "make h=1"}})
